@@ -2,6 +2,7 @@
 .PHONY: setup coq runner ext clean
 setup: clean coq runner ext
 coq:
+	python3 tools/gen_shared.py
 	cd coq && coq_makefile -f _CoqProject -o Makefile > /dev/null && timeout 3400 $(MAKE) -j16
 runner:
 	tools/build_runner.sh
